@@ -49,6 +49,33 @@ var vocabJSON []byte
 type Vocab struct {
 	Funcs    map[string][]string            `json:"funcs"`    // package (module-relative) -> "Recv.Name" / "Name"
 	Closures map[string]map[string][]string `json:"closures"` // package -> top-level function -> closure variable names
+	// Sigs: "pkg|Name" (functions) and "pkg|Func$closure" (closures) -> parameter and result types, names left out.
+	// A new name whose signature equals that of a name that has disappeared from the same scope is taken for a
+	// rename, not for a new helper, and is left alone.
+	Sigs map[string]string `json:"sigs"`
+}
+
+func sigText(ft *ast.FuncType) string {
+	var sb strings.Builder
+	list := func(fl *ast.FieldList) {
+		sb.WriteString("(")
+		if fl != nil {
+			for _, f := range fl.List {
+				n := len(f.Names)
+				if n == 0 {
+					n = 1
+				}
+				for i := 0; i < n; i++ {
+					sb.WriteString(types.ExprString(f.Type))
+					sb.WriteString(",")
+				}
+			}
+		}
+		sb.WriteString(")")
+	}
+	list(ft.Params)
+	list(ft.Results)
+	return sb.String()
 }
 
 // EmbeddedVocab returns the vocabulary compiled into the checker (nil if empty).
@@ -122,9 +149,41 @@ func closureNames(body ast.Node) []string {
 	return out
 }
 
+// closureSigs: name -> signature of the function literal (or declared function type) bound to it.
+func closureSigs(body ast.Node) map[string]string {
+	out := map[string]string{}
+	ast.Inspect(body, func(n ast.Node) bool {
+		switch x := n.(type) {
+		case *ast.AssignStmt:
+			for i, rh := range x.Rhs {
+				if fl, ok := rh.(*ast.FuncLit); ok && i < len(x.Lhs) {
+					if id, ok := x.Lhs[i].(*ast.Ident); ok {
+						out[id.Name] = sigText(fl.Type)
+					}
+				}
+			}
+		case *ast.ValueSpec:
+			ft, isFT := x.Type.(*ast.FuncType)
+			for i, id := range x.Names {
+				if isFT {
+					if _, has := out[id.Name]; !has {
+						out[id.Name] = sigText(ft)
+					}
+				} else if i < len(x.Values) {
+					if fl, ok := x.Values[i].(*ast.FuncLit); ok {
+						out[id.Name] = sigText(fl.Type)
+					}
+				}
+			}
+		}
+		return true
+	})
+	return out
+}
+
 // ScanNames parses the non-test Go files below dir (content from overlay when present) and returns their names.
 func ScanNames(dir string, overlay map[string][]byte) (*Vocab, error) {
-	v := &Vocab{Funcs: map[string][]string{}, Closures: map[string]map[string][]string{}}
+	v := &Vocab{Funcs: map[string][]string{}, Closures: map[string]map[string][]string{}, Sigs: map[string]string{}}
 	fset := token.NewFileSet()
 	err := filepath.Walk(dir, func(path string, fi os.FileInfo, err error) error {
 		if err != nil {
@@ -157,7 +216,11 @@ func ScanNames(dir string, overlay map[string][]byte) (*Vocab, error) {
 			}
 			name := declName(fd)
 			v.Funcs[rel] = append(v.Funcs[rel], name)
+			v.Sigs[rel+"|"+name] = sigText(fd.Type)
 			if fd.Body != nil {
+				for cn, cs := range closureSigs(fd.Body) {
+					v.Sigs[rel+"|"+name+"$"+cn] = cs
+				}
 				if cn := closureNames(fd.Body); len(cn) > 0 {
 					if v.Closures[rel] == nil {
 						v.Closures[rel] = map[string][]string{}
@@ -187,8 +250,23 @@ func newNames(cur, voc *Vocab) (map[string]map[string]bool, map[string]map[strin
 		for _, n := range known {
 			ks[n] = true
 		}
+		curSet := map[string]bool{}
+		for _, n := range names {
+			curSet[n] = true
+		}
+		// signatures of the functions that have disappeared from the package
+		goneSigs := map[string]int{}
+		for _, n := range known {
+			if !curSet[n] {
+				goneSigs[voc.Sigs[pk+"|"+n]]++
+			}
+		}
 		for _, n := range names {
 			if !ks[n] {
+				if sg := cur.Sigs[pk+"|"+n]; sg != "" && goneSigs[sg] > 0 {
+					goneSigs[sg]-- // a rename of a known function: not a new helper
+					continue
+				}
 				if nf[pk] == nil {
 					nf[pk] = map[string]bool{}
 				}
@@ -203,8 +281,22 @@ func newNames(cur, voc *Vocab) (map[string]map[string]bool, map[string]map[strin
 			for _, n := range voc.Closures[pk][fn] {
 				kc[n] = true
 			}
+			curC := map[string]bool{}
+			for _, n := range cl {
+				curC[n] = true
+			}
+			goneC := map[string]int{}
+			for n := range kc {
+				if !curC[n] {
+					goneC[voc.Sigs[pk+"|"+fn+"$"+n]]++
+				}
+			}
 			for _, n := range cl {
 				if !kc[n] {
+					if sg := cur.Sigs[pk+"|"+fn+"$"+n]; sg != "" && goneC[sg] > 0 {
+						goneC[sg]--
+						continue
+					}
 					if nc[pk] == nil {
 						nc[pk] = map[string]map[string]bool{}
 					}
